@@ -152,13 +152,13 @@ Record(b, t) ==
 \* refused up front (or by the builder's snapshot-revert wrapper): no effect at all
 Refused(b, t) == \/ t.k \in {"badnonce", "lowgas", "nofunds"}
                  \/ b.bal[t.a] < Fee
-                 \/ (t.k = "transfer" /\ b.bal[t.a] < Fee + t.x)
+                 \/ (t.k \in {"transfer", "widegas"} /\ b.bal[t.a] < Fee + t.x)
 
 ApplyTx(b, t) ==
    IF Refused(b, t) THEN b
    ELSE LET rf == IF t.k = "callclear" /\ b.slot = 1 THEN Refund ELSE 0
             b1 == PayFee(b, t.a, Fee, rf) IN
-        CASE t.k = "transfer"  -> [b1 EXCEPT !.bal[t.a] = @ - t.x, !.bal[t.b] = @ + t.x]
+        CASE t.k \in {"transfer", "widegas"} -> [b1 EXCEPT !.bal[t.a] = @ - t.x, !.bal[t.b] = @ + t.x]
           [] t.k = "callset"   -> [b1 EXCEPT !.slot = 1]
           [] t.k = "callclear" -> [b1 EXCEPT !.slot = 0]
           [] t.k = "garbage"   -> b1
@@ -172,7 +172,7 @@ ApplyAll(b, q) == IF q = <<>> THEN b ELSE ApplyAll(ApplyTx(b, Head(q)), Tail(q))
 \* what the code is expected to do with an offered transaction: "refused" (not included), "failed" (included, only the
 \* fee is charged) or "ok"
 Outcome(b, t) == IF Refused(b, t) THEN "refused"
-                 ELSE IF t.k \in {"transfer", "callset", "callclear"} THEN "ok"
+                 ELSE IF t.k \in {"transfer", "widegas", "callset", "callclear"} THEN "ok"
                  ELSE IF t.k = "garbage" THEN "failed"
                  ELSE IF Accepts(PayFee(b, t.a, Fee, 0), t) THEN "ok" ELSE "failed"
 
@@ -188,6 +188,8 @@ Cand(b) ==
        u0 == CHOOSE u \in Users : TRUE IN
    UNION { { Tx("transfer", a, c, "g1", 5, 0, 0) : c \in (IF Small THEN U \cup {"g2"} ELSE U \cup {"g2", "n1"}) \ {a} } : a \in U }
    \cup { Tx(k, u0, u0, "g1", 0, 0, 0) : k \in {"callset", "callclear"} }
+   \* gas-limit classes: a transfer's limit is exact; "widegas" is a transfer whose gas LIMIT is nearly the block's
+   \cup (IF Small THEN {} ELSE { Tx("widegas", a, u0, "g1", 5, 0, 0) : a \in U \ {u0} })
    \cup { Tx("create", v, v, v, x, IF Small \/ x < 3 * Unit THEN 3 ELSE 2, IF Small THEN 5000 ELSE RateOf(x)) :
             v \in { w \in NewVals : ~b.val[w].ex /\ ~PendCreate(b, w) }, x \in Amts }
    \cup { Tx("update", v, v, v, 0, 1, c) : v \in { w \in ex : ~b.val[w].acc }, c \in Rates }
